@@ -1,11 +1,11 @@
 SPECIFICATION Spec
 CONSTANTS
-    M = 256
-    W = 16
-    DocW = 16
+    M = 64
+    W = 31
+    DocW = 4
     AllPairs = TRUE
     Band = 0
-    Chunks = 16
+    Chunks = 4
     ASel = "all"
     CoreDLt = TRUE
     Emit = FALSE
